@@ -5,8 +5,8 @@ package shimagent
 //vsym:entry H09_mode
 //vsym:model golang.org/x/crypto/ssh/agent.NewClient m09NewClient
 //vsym:replay same-harness
-//vsym:expect-cover C09.hidden C09.sign-hidden-refused C09.plain-listed C09.other-cert-listed C09.memory-cert-listed C09.hidden-removed C09.mode-off-lists-all C09.added-later-hidden
-//vsym:bound H09_mode: construction with newShimAgent over an arbitrary upstream content of 0..2 (thorough 0..3) identities (plain key, certificate whose KeyID decodes, certificate whose KeyID does not), mode on or off; then 0..1 (thorough 0..2) operations from {another client adds a decoding certificate upstream, AddHardCert, Remove of an upstream certificate, RemoveAll}; then List, Signers and Sign for every identity; every certificate window and the clock symbolic with the clock inside the window
+//vsym:expect-cover C09.hidden C09.sign-hidden-refused C09.plain-listed C09.other-cert-listed C09.memory-cert-listed C09.hidden-removed C09.mode-off-lists-all C09.added-later-hidden C09.upstream-certificate-also-in-memory
+//vsym:bound H09_mode: construction with newShimAgent over an arbitrary upstream content of 0..2 (thorough 0..3) identities (plain key, certificate whose KeyID decodes, certificate whose KeyID does not), mode on or off; then 0..1 (thorough 0..2) operations from {another client adds a decoding certificate upstream, AddHardCert of a new certificate, AddHardCert of a certificate the underlying agent already holds, Remove of an upstream certificate, RemoveAll}; then List, Signers and Sign for every identity; every certificate window and the clock symbolic with the clock inside the window
 
 import (
 	"golang.org/x/crypto/ssh"
@@ -68,7 +68,21 @@ func H09_mode() {
 	removed := map[*ssh.Certificate]bool{}
 	nops := vChoose(maxOps+1, "operations")
 	for i := 0; i < nops; i++ {
-		switch vChoose(4, "operation") {
+		switch vChoose(5, "operation") {
+		case 4: // a certificate the underlying agent already holds is also registered as a hardware certificate
+			if len(upCerts) == 0 {
+				vAssume(false)
+			}
+			c := upCerts[vChoose(len(upCerts), "register-which")]
+			if removed[c] {
+				vAssume(false)
+			}
+			e := s.AddHardCert(c, "hw")
+			vAssert(vIff(e == nil, havePlain), "C09.addhardcert-needs-listed-key")
+			if e == nil {
+				mem = append(mem, c)
+				vReach("C09.upstream-certificate-also-in-memory")
+			}
 		case 0: // another client adds a YSSHCA certificate to the underlying agent later
 			c := h09Valid(true)
 			upCerts = append(upCerts, c)
@@ -148,6 +162,15 @@ func H09_mode() {
 	for _, c := range upCerts {
 		if removed[c] {
 			continue
+		}
+		alsoInMemory := false
+		for _, m := range mem {
+			if m == c {
+				alsoInMemory = true
+			}
+		}
+		if alsoInMemory {
+			continue // judged as an in-memory hardware certificate below
 		}
 		blob := mwCertMarshal(c)
 		hidden := mode && mwCertDecodes(c)
